@@ -43,9 +43,34 @@ def run(ctx, obs):
     numbered_keys(ctx, obs)
     descriptors_unfiltered(ctx, obs)
     lossless_writers(ctx, obs)
+    reader_reads_attributes(ctx, obs)
 
 
 NUMERIC_TYPES = {'float', 'int', 'complex', 'float64', 'float32', 'int64', 'int32', 'f8', 'f4', 'i8', 'i4', 'double', 'bool'}
+
+
+def reader_reads_attributes(ctx, obs, rule='EXH-read'):
+    """`_write_to_group` stores strings (and string lists) as ATTRIBUTES of the group, everything else as datasets / sub-groups.
+    `_read_group` therefore has two loops, over the members and over `group.attrs`; every exit of the function has to come after
+    the attribute loop - a shortcut for "empty" groups (`len(group) == 0` counts members only) returns before the strings are
+    read, and a dict whose values are all strings comes back empty."""
+    prog = ctx.prog
+    q = 'io.hdf5._read_group'
+    f = prog.func(q)
+    from ..rules.common import source_order
+    so = source_order(f.node)
+    loops = [l for l in ast.walk(f.node) if isinstance(l, ast.For) and any(isinstance(x, ast.Attribute) and x.attr == 'attrs' for x in ast.walk(l.iter))]
+    con = 'every exit of _read_group comes after the loop over the group attributes'
+    if not loops:
+        obs.unk(rule, q, con, 'no loop over group.attrs found', where(prog, f, f.node))
+        return
+    first = min(so.get(id(l), 0) for l in loops)
+    early = [x for x in ast.walk(f.node) if isinstance(x, ast.Return) and so.get(id(x), 0) < first]
+    if early:
+        obs.bad(rule, q, con, f'`{norm(early[0])}` (line {early[0].lineno}) leaves before `group.attrs` is read: string values are stored as '
+                f'attributes, so a group that holds only strings is returned as an empty dict', where(prog, f, early[0]))
+    else:
+        obs.ok(rule, q, con, '', where(prog, f, loops[0]))
 
 
 def lossless_writers(ctx, obs, rule='CODEC-cast'):
